@@ -10,7 +10,7 @@ from ..loader import AnalysisError
 from ..report import rule
 from ..resolve import Resolver
 from ..terms import And, App, Attr, Cmp, Comp, Idx, Not, Range, Sym
-from .common import Flow, calls_to, short, unparse
+from .common import Flow, bind_args, calls_to, short, unparse
 from .own import describe, ext_writes, ownership
 
 MS = "containers.model_state.ModelState"
@@ -39,29 +39,32 @@ def r1(ctx):
     if n == 0:
         raise AnalysisError("no writer of _point_labels / _member_points found")
     ms = ana.prog.cls(MS)
-    allowed = {ms.methods[k].qualname for k in ("empty_model", "shallow_copy", "deep_copy") if k in ms.methods}
-    for fi in ana.prog.functions.values():
+    n_ctor = 0
+    for fi in ana.own_functions():
         for cs in calls_to(ana, fi, ms.qualname):
-            ok = fi.qualname in allowed
-            ctx.check(ok, fi, "ModelState(...) is constructed only by empty_model / shallow_copy / deep_copy", line=cs.node.lineno,
-                      role=f"ctor@{short(fi.qualname)}", expected=", ".join(sorted(short(a) for a in allowed)), found=short(fi.qualname))
-            if ok:
-                kw = {k.arg: k.value for k in cs.node.keywords}
-                lab, cl = kw.get("point_labels"), kw.get("clusters")
-                if fi.name == "empty_model":
-                    good = lab is None
-                    why = "no labels, K empty clusters"
-                else:
-                    src_l = lab is not None and any(isinstance(a, ast.Attribute) and a.attr in ("_point_labels", "point_labels") and isinstance(a.value, ast.Name)
-                                                    and a.value.id == "self" for a in ast.walk(lab))
-                    fl = Flow(ana, fi)
-                    dep = fl.closure(cl) if cl is not None else None
-                    src_c = dep is not None and "self.clusters" in dep.attrs
-                    good = src_l and src_c
-                    why = "labels and clusters both taken from self"
-                ctx.check(good, fi, f"the label list and the cluster list given to the constructor belong together ({why})",
-                          line=cs.node.lineno, role=f"ctor-pair@{short(fi.qualname)}", expected="both from the same source state",
-                          found=f"point_labels={unparse(lab) if lab is not None else None}, clusters={unparse(cl) if cl is not None else None}")
+            n_ctor += 1
+            try:
+                ba = bind_args(ana.func(MS + ".__init__"), cs.node, skip_self=True)
+            except AnalysisError:
+                ba = {k.arg: k.value for k in cs.node.keywords}
+            lab, cl = ba.get("point_labels"), ba.get("clusters")
+            # wherever a state is constructed: either it starts unlabelled (membership is derived when labels are assigned
+            # through the setter), or its label list and its cluster list come from one and the same source state
+            if lab is None or (isinstance(lab, ast.Constant) and lab.value is None):
+                good, why = True, "no labels yet"
+            else:
+                fl = Flow(ana, fi)
+                dl = fl.closure(lab)
+                dc = fl.closure(cl) if cl is not None else None
+                roots_l = {a.rsplit(".", 1)[0] for a in dl.attrs if a.rsplit(".", 1)[-1] in ("point_labels", "_point_labels")}
+                roots_c = {a.rsplit(".", 1)[0] for a in (dc.attrs if dc is not None else ()) if a.rsplit(".", 1)[-1] == "clusters"}
+                good = bool(roots_l) and roots_l == roots_c and len(roots_l) == 1
+                why = "labels and clusters both taken from one state"
+            ctx.check(good, fi, f"the label list and the cluster list given to the constructor belong together ({why})",
+                      line=cs.node.lineno, role=f"ctor-pair@{short(fi.qualname)}", expected="unlabelled, or both from the same source state",
+                      found=f"point_labels={unparse(lab) if lab is not None else None}, clusters={unparse(cl) if cl is not None else None}")
+    if n_ctor == 0:
+        raise AnalysisError("no ModelState(...) construction found")
 
 
 def _no_store_condition_ok(ctx, fi, field, new_param, old_attr):
